@@ -3,8 +3,17 @@
   `StateFns.lean` ONLY when the translator reports that a function left its subset
   (`translatorFallbacks ≠ []`); the harness then ties that function to the code by an
   exhaustive grid correspondence instead.  (Not generated.)
+
+  Second part: hand copies of the functions of the wider subset (`IndexFns.lean`,
+  `CapacityFns.lean`, `ReadIndexFns.lean`), used in the same way: ONLY when the translator
+  reports a fallback for that function (then the group's `translatorFallbacks…` constant is
+  non-empty and the theorem `translator_no_fallback_…` of Proofs/GenEq2–4.lean fails).  They
+  are frozen copies of the translator's output for the pristine source.
 -/
 import SelfiesVerif.Py
+import SelfiesVerif.Generated.PyRt
+import SelfiesVerif.Generated.Tables
+set_option linter.unusedVariables false
 namespace SV.Gen.Fallback
 open SV
 
@@ -28,5 +37,110 @@ def next_ring_state (ring_type state : Int) : Py (Int × Option Int) :=
     let left := state - bo
     .ok (bo, if left = 0 then none else some left)
   else .error .AssertionError
+
+/-! ### index code (selfies/grammar_rules.py) -/
+
+/-- `get_index_from_selfies` of selfies/grammar_rules.py (line 80), hand copy. -/
+def get_index_from_selfies (symbols : (List (Option Str))) : Py Int := do
+  let index : Int := (0 : Int)
+  let index : Int := List.foldl (fun (index : Int) (x_1 : (Nat × (Option Str))) =>
+      let i : Nat := x_1.1
+      let c : (Option Str) := x_1.2
+      let index : Int := (index + ((PyRt.dictGetD indexCode c (0 : Int)) * ((((List.length indexCode) : Nat) : Int) ^ i)))
+      index
+      ) index (PyRt.enumerate (List.reverse symbols))
+  Except.ok index
+
+/-- `while` loop #1 of `get_selfies_from_index` (line 95).  State: (index, symbols); read only: base.
+    Fuel: `index` is only changed by a floor division by `base`, once per iteration, and the loop
+    runs while `index` is non-zero.  For `base ≥ 2` and `index > 0` the quotient is smaller, so at
+    most `index` iterations happen and `index.toNat + 1` units of fuel (one per test) suffice;
+    if `base < 2` the Python loop raises ZeroDivisionError or does not terminate, the latter
+    shows up as `.error .NonTermination`.  (Proved in Proofs/GenEq2.lean.) -/
+def get_selfies_from_index_while1 (base : Nat) : Nat → (Int × (List Str)) → Py (Int × (List Str))
+  | 0, _ => Except.error PyExc.NonTermination
+  | py_fuel + 1, st_1 => do
+    let index : Int := st_1.1
+    let symbols : (List Str) := st_1.2
+    if (decide (index ≠ 0)) then
+      let t_2 ← PyRt.mod index ((base : Nat) : Int)
+      let t_3 ← PyRt.index indexAlphabet t_2
+      let symbols : (List Str) := (symbols ++ [t_3])
+      let t_4 ← PyRt.floorDiv index ((base : Nat) : Int)
+      let index : Int := t_4
+      get_selfies_from_index_while1 base py_fuel (index, symbols)
+    else
+      Except.ok (index, symbols)
+
+/-- `get_selfies_from_index` of selfies/grammar_rules.py (line 87), hand copy. -/
+def get_selfies_from_index (index : Int) : Py (List Str) := do
+  if ((decide (index < (0 : Int)))) then
+    Except.error PyExc.IndexError
+  else
+    if ((decide (index = (0 : Int)))) then
+      let t_1 ← PyRt.index indexAlphabet (0 : Int)
+      Except.ok [t_1]
+    else
+      let symbols : (List Str) := []
+      let base : Nat := (List.length indexAlphabet)
+      let st_1 : (Int × (List Str)) ← get_selfies_from_index_while1 base (Int.toNat index + 1) (index, symbols)
+      let index : Int := st_1.1
+      let symbols : (List Str) := st_1.2
+      Except.ok (List.reverse symbols)
+
+/-! ### bonding capacity (selfies/bond_constraints.py, selfies/mol_graph.py) -/
+
+/-- `get_bonding_capacity` of selfies/bond_constraints.py (line 189), hand copy. Decorators ignored: functools.lru_cache(). -/
+def get_bonding_capacity (_current_constraints : (List (Str × Nat))) (element : Str) (charge : Int) : Py Int := do
+  let key : Str := element
+  if ((decide (charge ≠ (0 : Int)))) then
+    let key : Str := (key ++ (fmtPlus charge))
+    if ((PyRt.dictHas _current_constraints (some key))) then
+      let t_1 ← PyRt.dictItem _current_constraints (some key)
+      Except.ok t_1
+    else
+      let t_2 ← PyRt.dictItem _current_constraints (some (['?'] : Str))
+      Except.ok t_2
+  else
+    if ((PyRt.dictHas _current_constraints (some key))) then
+      let t_3 ← PyRt.dictItem _current_constraints (some key)
+      Except.ok t_3
+    else
+      let t_4 ← PyRt.dictItem _current_constraints (some (['?'] : Str))
+      Except.ok t_4
+
+/-- `Atom.bonding_capacity` of selfies/mol_graph.py (line 57), hand copy. Decorators ignored: property, functools.lru_cache(). -/
+def Atom_bonding_capacity (_current_constraints : (List (Str × Nat))) (self_element : Str) (self_charge : Int) (self_h_count : (Option Int)) : Py Int := do
+  let t_1 ← get_bonding_capacity _current_constraints self_element self_charge
+  let bond_cap : Int := t_1
+  let bond_cap : Int := (bond_cap - (match self_h_count with | none => (0 : Int) | some self_h_count => self_h_count))
+  Except.ok bond_cap
+
+/-! ### index reader (selfies/decoder.py) -/
+
+/-- `_read_index_from_selfies` of selfies/decoder.py (line 210), hand copy. -/
+def read_index_from_selfies {ι : Type} (py_next : ι → Py ((Nat × Str) × ι)) (symbol_iter : ι) (n_symbols : Int) : Py ((Int × Int) × ι) := do
+  let index_symbols : (List (Option Str)) := []
+  let n_read : Int := (0 : Int)
+  let st_1 : (Int × (List (Option Str)) × ι) ← List.foldlM (m := Py) (fun (st_1 : (Int × (List (Option Str)) × ι)) (x_1 : Nat) => do
+      let n_read : Int := st_1.1
+      let index_symbols : (List (Option Str)) := st_1.2.1
+      let symbol_iter : ι := st_1.2.2
+      match (py_next symbol_iter : Py ((Nat × Str) × ι)) with
+      | Except.ok t_1 =>
+        let symbol_iter : ι := t_1.2
+        let index_symbols : (List (Option Str)) := (index_symbols ++ [(some t_1.1.2)])
+        let n_read : Int := (n_read + (1 : Int))
+        Except.ok (n_read, index_symbols, symbol_iter)
+      | Except.error PyExc.StopIteration =>
+        let index_symbols : (List (Option Str)) := (index_symbols ++ [(none : (Option Str))])
+        Except.ok (n_read, index_symbols, symbol_iter)
+      | Except.error py_e => Except.error py_e
+      ) (n_read, index_symbols, symbol_iter) (List.range (Int.toNat n_symbols))
+  let n_read : Int := st_1.1
+  let index_symbols : (List (Option Str)) := st_1.2.1
+  let symbol_iter : ι := st_1.2.2
+  let t_2 ← get_index_from_selfies index_symbols
+  Except.ok ((t_2, n_read), symbol_iter)
 
 end SV.Gen.Fallback
